@@ -1,7 +1,7 @@
 (* C17 — Emitted bytecode is well formed and the VM cannot be crashed.
    Property theorems only; proofs are [exact <lemma>]. *)
 From Coq Require Import ZArith NArith List String.
-From EvyV Require Import Base SymTab SymTabProofs Bytecode BytecodeProofs Vm VmProofs Compile CompileWfProofs CompileSymProofs CompileCtlProofs.
+From EvyV Require Import Base SymTab SymTabProofs Bytecode BytecodeProofs Vm VmProofs Compile CompileSem CompileWfProofs CompileSymProofs CompileCtlProofs.
 Require Import EvyV.Gen.Opcodes.
 Import ListNotations.
 Open Scope N_scope.
@@ -23,20 +23,49 @@ Print Assumptions C17_wf_check_sound.
 
 (* A well-formed program cannot crash the VM model through the stack, an
    operand or a jump: in every state reachable from NewVM by Run's loop the
-   stack pointer is >= LocalCount, the only possible crash is a type-directed
+   stack pointer is >= LocalCount, the only possible crashes are a type-directed
    one (unchecked type assertion — needs the typed simulation of C16, hence
-   _partial), and when the loop ends the instruction pointer is exactly at the
-   end of the code and sp = LocalCount. *)
+   _partial) and — in the tree at HEAD, Vm.repeat_guarded = false — the host
+   crash of OpArrayRepeat on a count no array can have (finding
+   vm-repeat-huge-count-host-panic, C17_vm_repeat_no_host_crash_refuted below);
+   when the loop ends the instruction pointer is exactly at the end of the
+   code and sp = LocalCount. *)
 Theorem C17_wf_vm_safe_partial : forall (p : program), WF (info_of p) ->
   forall s, reachable p s ->
     plcount p <= sp_of s /\
     match vm_step p s with
     | Running _ | Failed _ => True
     | Halted s' => ip s' = N.of_nat (List.length (pcode p)) /\ sp_of s' = plcount p
-    | Crashed c => c = CType
+    | Crashed c => c = CType \/ (repeat_guarded = false /\ c = CHost)
     end.
 Proof. exact wf_vm_safe_partial. Qed.
 Print Assumptions C17_wf_vm_safe_partial.
+
+(* REFUTED at HEAD: `executing well-formed bytecode never crashes the host`.
+   `a := [1 2] * 1000000000000000000` compiles to bytecode the validator
+   accepts; OpArrayRepeat computes make([]value, 0, 2*10^18): the Go runtime
+   panics (makeslice: cap out of range; reproduced on the real VM by the C17
+   harness, stream repeat-count).  The evaluator returns ErrBadRepetition
+   ("result too large") for every count above math.MaxInt32 / len; with the
+   same guard in the VM (proposed_fixes/C17-vm-repeat-count.diff,
+   arr_repeat true) the model returns that error too. *)
+Definition ex_repeat_huge : slist :=
+  SCons (SDecl (s_ "a") (EBin BStar TArr TNum
+           (EArr (ECons (ENum (float_of_Z 1)) (ECons (ENum (float_of_Z 2)) ENil)))
+           (ENum (float_of_Z 1000000000000000000)))) SNil.
+
+Theorem C17_vm_repeat_no_host_crash_refuted :
+  match compile ex_repeat_huge with
+  | COk st =>
+      let bc := bytecode_of st in
+      wf_check {| bcode := out_code bc; nconsts := N.of_nat (List.length (out_consts bc));
+                  gcount := out_gcount bc; lcount := out_lcount bc |} = true /\
+      vm_run 100 (program_of bc) (vm_init (program_of bc)) = FCrashed CHost
+  | CErr _ => False
+  end /\
+  arr_repeat true (float_of_Z 1000000000000000000) [VNum (float_of_Z 1); VNum (float_of_Z 2)] = PErr EBadRepetition.
+Proof. vm_compute. repeat split; reflexivity. Qed.
+Print Assumptions C17_vm_repeat_no_host_crash_refuted.
 
 (* Over EVERY history of Push/Pop/Define/Resolve: two symbols that are alive
    at the same time (stored in any table of the current chain, shadowed or not)
